@@ -34,6 +34,8 @@ import (
 )
 
 // goroutinesIn counts the goroutines whose stack shows all the given fragments.
+// A batcher's Run goroutine is recognised by its "created by ...(*BatcherFactory).NewBatcher" line, which it carries from
+// its creation on -- also while it has not been scheduled for the first time (its frames do not show Run yet then).
 func goroutinesIn(frags ...string) int {
 	buf := make([]byte, 8<<20)
 	n := runtime.Stack(buf, true)
@@ -85,7 +87,7 @@ func parseShut(t []string) shutCase {
 
 func runShutdown(c shutCase) (res string, note string) {
 	// the Run goroutines of earlier cases have been closed: wait for them to be gone, this case looks for its own
-	waitUntil(5*time.Second, func() bool { return goroutinesIn("batcherImpl).Run") == 0 })
+	waitUntil(5*time.Second, func() bool { return goroutinesIn("BatcherFactory).NewBatcher") == 0 })
 	gate := make(chan struct{})
 	entered := make(chan struct{}, 1)
 	var first atomic.Bool
@@ -180,7 +182,7 @@ func runShutdown(c shutCase) (res string, note string) {
 		note += " late-add-did-not-return"
 	}
 	// Run fails / completes what it received and returns; afterwards nothing can complete a call any more
-	waitUntil(5*time.Second, func() bool { return goroutinesIn("batcherImpl).Run") == 0 })
+	waitUntil(5*time.Second, func() bool { return goroutinesIn("BatcherFactory).NewBatcher") == 0 })
 	waitUntil(2*time.Second, func() bool {
 		for _, cnt := range counts {
 			if cnt.Load() == 0 {
@@ -281,7 +283,7 @@ func shutcChild(lateArg string) {
 	_ = closeFn()
 	close(gate)
 	wg.Wait()
-	waitUntil(5*time.Second, func() bool { return goroutinesIn("batcherImpl).Run") == 0 })
+	waitUntil(5*time.Second, func() bool { return goroutinesIn("BatcherFactory).NewBatcher") == 0 })
 	var res []string
 	for _, ch := range chans {
 		n := 0
@@ -416,7 +418,7 @@ func doShutdownStress(o *hx.Out, iters int, adders int) {
 		}
 		if zero() > 0 && !waitUntil(2*time.Millisecond, func() bool { return zero() == 0 }) {
 			// not yet completed: decide once Run has returned
-			if !waitUntil(30*time.Second, func() bool { return zero() == 0 || goroutinesIn("batcherImpl).Run") == 0 }) {
+			if !waitUntil(30*time.Second, func() bool { return zero() == 0 || goroutinesIn("BatcherFactory).NewBatcher") == 0 }) {
 				o.Count("shutdown:stress:run-goroutine-still-alive-after-30s")
 				continue
 			}
